@@ -3,4 +3,5 @@ NEXT Next
 INVARIANT Inv_CollisionReported
 INVARIANT Inv_DeclaredDistinct
 INVARIANT Inv_NoFileWrittenTwice
+INVARIANT Inv_NoDuplicateModuleNames
 INVARIANT Chk_BothDeclared
